@@ -13,7 +13,7 @@ from job_shop_lib.dispatching.feature_observers import (
 
 from .. import gen, obs
 from .. import fingerprint as fp
-from ..lib import Driver, ref
+from ..lib import Driver, disturb, fork, ref
 
 ID = "C11"
 RULE = (
@@ -26,7 +26,7 @@ RULE = (
     "consumers of the observers); composites over generated "
     "sub-lists built by CompositeFeatureObserver(...) and by "
     "from_feature_observer_configs; up to two dispatcher resets at generated "
-    "points, the checks continuing in the following episodes. Oracle after construction and after every "
+    "points, the checks continuing in the following episodes; optionally the dispatcher is deep-copied (observers included) at a generated step, the original played on, and the checks continue on the copy. Oracle after construction and after every "
     "dispatch, for every operation / job / machine that still has unscheduled "
     "work: feature == value recomputed from (instance, history) by the "
     "independent model (readiness from the model's filter criterion; earliest "
@@ -82,6 +82,7 @@ def _cases(draw, tier):
         "inst": inst,
         "filters": filters,
         "bystanders": draw(gen.pick([0, 1, 0, 3, 0, 2])),
+        "fork": draw(gen.pick([None, 2, None, 0, None, 5, None, 1])),
         "observers": base + extra,
         "composite": comp,
         "composite_cfgs": draw(obs.feature_configs(min_size=1, max_size=4)),
@@ -323,6 +324,7 @@ def check_case(case, ctx):
     resets = sorted(case.get("resets", []))
     pos = 0
     episode = 0
+    fork_at = case.get("fork")
     while True:
         if resets and m.count() >= min(resets[0], n):
             resets.pop(0)
@@ -334,6 +336,31 @@ def check_case(case, ctx):
             continue
         if m.complete():
             break
+        if fork_at is not None and m.count() >= fork_at:
+            # a planner deep-copies the dispatcher (observers included) here;
+            # the ORIGINAL is played on for a few steps, the checks continue
+            # on the copy, whose observers must follow the copy
+            fork_at = None
+            subs = list(d.subscribers)
+
+            def twin_of(o, subs=subs):
+                return clone.subscribers[next(i for i, x in enumerate(subs) if x is o)]
+
+            original, original_model = d, m
+            clone, m = fork(d, m)
+            if all(any(x is o for x in subs) for o in observers + [comp1, comp2] + ([comp3] if comp3 is not None else [])):
+                observers = [twin_of(o) for o in observers]
+                comp1, comp2 = twin_of(comp1), twin_of(comp2)
+                parts, comp2_parts = list(comp1.feature_observers), list(comp2.feature_observers)
+                if comp3 is not None:
+                    comp3 = twin_of(comp3)
+                d = clone
+                drv.dispatcher, drv.instance, drv.model = clone, clone.instance, m
+                disturb(original, original_model, inst, 3)
+                ctx.label("forked")
+                check_all(f"deep copy taken after {m.count()} dispatches, the original having gone on")
+            else:  # (not reached: every observer of the case is subscribed)
+                m = original_model
         read_only_consumers()
         a, b = history[pos] if pos < len(history) else (0, 0)
         pos += 1
